@@ -193,6 +193,21 @@ class SymSet(object):
     def vc_clone(self, memo, clone):
         return SymSet(self.mem)     # mutable (update): copy per path
 
+    def vc_len(self, ex, st, node):
+        """cardinality: the named members that are present, plus an unknown
+        positive number of further names when "any other name" is present"""
+        tot = z3.IntVal(0)
+        for n, v in sorted(self.mem.items()):
+            if n == OTHER:
+                k = S.fresh('n_other_names', 'int')
+                st.pc.append(k >= 1)
+                b = v if S.is_sym(v) else z3.BoolVal(bool(v))
+                tot = tot + z3.If(b, k, 0)
+            else:
+                b = v if S.is_sym(v) else z3.BoolVal(bool(v))
+                tot = tot + z3.If(b, 1, 0)
+        return z3.simplify(tot)
+
     def vc_sorted(self):
         """only used to build error messages: the names possibly in the set"""
         return sorted(n for n, v in self.mem.items() if v is not False)
